@@ -303,6 +303,10 @@ func scribbleCapacity(g orb.Geometry, s float64) {
 			full[i] = orb.Point{s, s}
 		}
 	}
+	scribbleMemberCapacity(g, s)
+}
+
+func scribbleMemberCapacity(g orb.Geometry, s float64) {
 	p := orb.Point{s, s}
 	switch v := g.(type) {
 	case orb.MultiLineString:
@@ -328,7 +332,7 @@ func scribbleCapacity(g orb.Geometry, s float64) {
 		}
 		for _, m := range v {
 			if _, isColl := m.(orb.Collection); isColl {
-				scribbleCapacity(m, s)
+				scribbleMemberCapacity(m, s)
 			}
 		}
 	}
@@ -383,6 +387,19 @@ func inRoundDomain(g orb.Geometry) bool {
 func roundWith(g orb.Geometry, factor int) orb.Geometry {
 	if factor == 0 {
 		return orb.Round(g)
+	}
+	if factor%2 == 1 || factor == 1000 { // the variadic argument through a caller-owned slice with spare capacity
+		fs := append(make([]int, 0, 4), factor)
+		tail := fs[:4]
+		tail[1], tail[2], tail[3] = -7, -8, -9
+		out := orb.Round(g, fs...)
+		if fs[0] != factor {
+			panic(fmt.Sprintf("orb.Round changed its factor argument from %d to %d", factor, fs[0]))
+		}
+		if tail[1] != -7 || tail[2] != -8 || tail[3] != -9 {
+			stats.Class("layout-note: orb.Round wrote the spare capacity of its factor slice")
+		}
+		return out
 	}
 	return orb.Round(g, factor)
 }
@@ -754,7 +771,9 @@ func checkBounds(c BoundCase) error {
 		}
 	}
 
-	// ToRing / ToPolygon return fresh values: overwriting one result changes neither an earlier one nor the next
+	// ToRing / ToPolygon (not named by the statement): the only demand is that the call depends on the bound
+	// alone, i.e. repeating it after the caller overwrote an earlier result gives the same value again. Whether two
+	// results share memory is a layout fact: counted as a note, never a failure.
 	{
 		r1 := a.ToRing()
 		s1 := append([]orb.Point{}, r1...)
@@ -763,10 +782,10 @@ func checkBounds(c BoundCase) error {
 			full[i] = orb.Point{424242.4242, 424242.4242}
 		}
 		if !bitsEq(r1, s1) {
-			return fmt.Errorf("two results of %v.ToRing() share memory: overwriting one changed the other to %v", a, r1)
+			stats.Class("layout-note: two results of Bound.ToRing share memory")
 		}
 		if r3 := a.ToRing(); !bitsEq(r3, s1) {
-			return fmt.Errorf("%v.ToRing() repeated after a result was overwritten gives %v, before %v", a, r3, s1)
+			return fmt.Errorf("%v.ToRing() repeated after an earlier result was overwritten gives %v, before %v", a, r3, s1)
 		}
 		p1 := a.ToPolygon()
 		sp := snapshot(p1)
@@ -774,10 +793,10 @@ func checkBounds(c BoundCase) error {
 		gen.Walk(p2, func(f *float64) { *f = 424242.4242 })
 		replaceMembers(p2, 424242.4242)
 		if d := sp.diff(p1); d != "" {
-			return fmt.Errorf("two results of %v.ToPolygon() share memory: %s", a, d)
+			stats.Class("layout-note: two results of Bound.ToPolygon share memory")
 		}
 		if d := sp.diff(a.ToPolygon()); d != "" {
-			return fmt.Errorf("%v.ToPolygon() repeated after a result was overwritten: %s", a, d)
+			return fmt.Errorf("%v.ToPolygon() repeated after an earlier result was overwritten: %s", a, d)
 		}
 	}
 
@@ -839,10 +858,23 @@ func (c LineCase) pts() []orb.Point {
 
 const orientSafeMax = 1e150 // coordinates above this may overflow the float64 shoelace products
 
-func checkLine(c LineCase) error {
-	orig := c.pts()
+func checkLine(c LineCase) error { return checkLinePts(c.pts()) }
+
+// brief prints short vertex lists in full and long ones by their ends.
+type brief []orb.Point
+
+func (b brief) String() string {
+	if len(b) <= 24 {
+		return fmt.Sprint([]orb.Point(b))
+	}
+	return fmt.Sprintf("[%d vertices: %v %v %v ... %v %v]", len(b), b[0], b[1], b[2], b[len(b)-2], b[len(b)-1])
+}
+
+// checkLinePts judges Reverse and Orientation on one vertex list of any length (O(n)).
+func checkLinePts(orig0 []orb.Point) error {
+	orig := brief(orig0)
 	n := len(orig)
-	want := make([]orb.Point, n)
+	want := make(brief, n)
 	for i, p := range orig {
 		want[n-1-i] = p
 	}
@@ -857,27 +889,28 @@ func checkLine(c LineCase) error {
 	ls := orb.LineString(cp())
 	ls.Reverse()
 	if !bitsEq(ls, want) {
-		return fmt.Errorf("LineString.Reverse of %v gave %v, want %v", orig, ls, want)
+		return fmt.Errorf("LineString.Reverse of %v gave %v, want %v", orig, brief(ls), want)
 	}
 	ls.Reverse()
 	if !bitsEq(ls, orig) {
-		return fmt.Errorf("LineString.Reverse twice of %v gave %v", orig, ls)
+		return fmt.Errorf("LineString.Reverse twice of %v gave %v", orig, brief(ls))
 	}
+	ls = nil
 
 	// Ring.Reverse
 	r := orb.Ring(cp())
 	o1 := r.Orientation()
 	if !bitsEq(r, orig) {
-		return fmt.Errorf("Ring.Orientation modified the ring: %v became %v", orig, r)
+		return fmt.Errorf("Ring.Orientation modified the ring: %v became %v", orig, brief(r))
 	}
 	r.Reverse()
 	if !bitsEq(r, want) {
-		return fmt.Errorf("Ring.Reverse of %v gave %v, want %v", orig, r, want)
+		return fmt.Errorf("Ring.Reverse of %v gave %v, want %v", orig, brief(r), want)
 	}
 	o2 := r.Orientation()
 	r.Reverse()
 	if !bitsEq(r, orig) {
-		return fmt.Errorf("Ring.Reverse twice of %v gave %v", orig, r)
+		return fmt.Errorf("Ring.Reverse twice of %v gave %v", orig, brief(r))
 	}
 	for _, o := range []orb.Orientation{o1, o2} {
 		if o != orb.CCW && o != orb.CW && o != 0 {
@@ -885,7 +918,8 @@ func checkLine(c LineCase) error {
 		}
 	}
 
-	sign, robust, distinct := shoelace(orig)
+	sign, robust, exact, distinct := shoelaceX(orig)
+	r = nil
 	if distinct < 3 {
 		if o1 != 0 || o2 != 0 {
 			return fmt.Errorf("ring with %d distinct vertices %v: Orientation = %d, reversed %d, want 0", distinct, orig, o1, o2)
@@ -900,30 +934,31 @@ func checkLine(c LineCase) error {
 			m[i][0], m[i][1] = m[i][1], m[i][0]
 		}
 		om := m.Orientation()
-		ms, mr, md := shoelace(m)
+		ms, mr, mexact, md := shoelaceX(m)
 		switch {
 		case md < 3:
 			if om != 0 {
-				return fmt.Errorf("after mirroring the ring in place: %d distinct vertices %v, Orientation = %d, want 0", md, []orb.Point(m), om)
+				return fmt.Errorf("after mirroring the ring in place: %d distinct vertices %v, Orientation = %d, want 0", md, brief(m), om)
 			}
-		case halfLattice(m) || (mr && maxAbs(m) <= orientSafeMax):
+		case mexact || (mr && maxAbs(m) <= orientSafeMax):
 			if int(om) != ms {
-				return fmt.Errorf("after mirroring the ring in place to %v: Orientation = %d, exact shoelace sign is %d (before mirroring: %d)", []orb.Point(m), om, ms, o1)
+				return fmt.Errorf("after mirroring the ring in place to %v: Orientation = %d, exact shoelace sign is %d (before mirroring: %d)", brief(m), om, ms, o1)
 			}
 		}
 	}
 
 	// Orientation() subtracts the ring's own first vertex before multiplying, so for an unclosed ring the
 	// reversed evaluation has other products (and another S) than the forward one: judge each on its own.
-	_, robustRev, _ := shoelace(want)
+	_, robustRev, exactRev, _ := shoelaceX(want)
 	safe := maxAbs(orig) <= orientSafeMax
-	// halfLattice: every float64 operation of the evaluation is exact, the sign must be the exact one, zero included.
+	// exact: no float64 operation of the evaluation rounds (half-integer coordinates, every difference, product and
+	// partial sum below 2^50): the sign must be the exact one, zero included, for any number of vertices.
 	// robust: |A| > 1e-9*S and |A| > 2^-990, far outside the rounding error (about 1e-15*S) of a float64 evaluation.
 	// Otherwise the sign is within float noise of zero (or overflows) and nothing is demanded.
-	if (halfLattice(orig) || (robust && safe)) && int(o1) != sign {
+	if (exact || (robust && safe)) && int(o1) != sign {
 		return fmt.Errorf("Orientation of %v = %d, exact shoelace sign is %d", orig, o1, sign)
 	}
-	if (halfLattice(orig) || (robustRev && safe)) && int(o2) != -sign {
+	if (exactRev || (robustRev && safe)) && int(o2) != -sign {
 		return fmt.Errorf("Orientation of the reversed ring of %v = %d, want %d (orientation before reversing: %d)", orig, o2, -sign, o1)
 	}
 	return nil
@@ -993,6 +1028,15 @@ func (gg geomGen) list(kind string, forceEmpty bool) *node {
 		ps := gg.points(rapid.IntRange(3, 5).Draw(gg.t, "n"))
 		return &node{Kind: kind, Pts: append(ps, ps[0])}
 	}
+	if rapid.IntRange(0, 299).Draw(gg.t, "large") == 211 { // rare large class: around the thresholds 64, 512, 1024
+		base := rapid.SampledFrom([]int{64, 512, 1024}).Draw(gg.t, "largebase")
+		palette := gg.points(8)
+		ps := make([]orb.Point, base+rapid.IntRange(-2, 3).Draw(gg.t, "largeoff"))
+		for i := range ps {
+			ps[i] = palette[rapid.IntRange(0, 7).Draw(gg.t, "pal")]
+		}
+		return &node{Kind: kind, Pts: ps}
+	}
 	return &node{Kind: kind, Pts: gg.points(rapid.IntRange(2, 5).Draw(gg.t, "n"))}
 }
 
@@ -1047,6 +1091,9 @@ func (gg geomGen) geom(kind string, depth int, forceEmpty bool) *node {
 	if nk == 0 {
 		n.Nil = rapid.Bool().Draw(gg.t, "nilSlice")
 		return n
+	}
+	if depth == 0 && rapid.IntRange(0, 299).Draw(gg.t, "manyMembers") == 211 { // rare: more than 64 members
+		nk = 62 + rapid.IntRange(0, 5).Draw(gg.t, "manyOff")
 	}
 	emptyFirst := nk >= 2 && rapid.IntRange(0, 3).Draw(gg.t, "emptyFirst") == 0
 	for i := 0; i < nk; i++ {
@@ -1483,7 +1530,7 @@ func assumptions() {
 	stats.Assume("collection members are never nil interfaces, and the nil interface itself is not one of the nine kinds")
 	stats.Assume("a Bound value used as a geometry stands for its two corners; an inverted Bound (min > max on an axis) denotes the empty set and contributes no vertex")
 	stats.Assume("Round is judged for |coordinate| <= 1e7 and factors 1, 3, 10, 1000, 1e6 (the documented default, the harness's own constant), 1e7; tolerance 0.5/f*(1+1e-9) + 1e-15*|x|; on-grid tolerance |r*f - integer| <= 1e-9 + |r*f|*2^-50")
-	stats.Assume("Orientation must equal the exact shoelace sign when every coordinate is a multiple of 1/2 with |v| <= 2^19 (float evaluation exact), or when |A| > 1e-9*sum|products| and |A| > 2^-990 and |v| <= 1e150; otherwise only its range {-1,0,1} and the < 3 distinct vertices => 0 rule are demanded")
+	stats.Assume("Orientation must equal the exact shoelace sign when the float evaluation is exact (coordinates multiples of 1/2, every difference, product and partial sum below 2^50; any number of vertices), or when |A| > 1e-9*sum|products| and |A| > 2^-990 and |v| <= 1e150; otherwise only its range {-1,0,1} and the < 3 distinct vertices => 0 rule are demanded")
 	stats.Assume("Intersects is compared with interval overlap only for two non-empty bounds (symmetry for all); Extend on an empty receiver must only contain the point")
 }
 
@@ -1507,6 +1554,17 @@ func classifyGeom(n *node, cls string) {
 	}
 	if !n.hasVertices() {
 		stats.Class("has:no vertices at all")
+	}
+	big, many := false, false
+	n.walk(func(m *node) {
+		big = big || len(m.Pts) >= 62
+		many = many || len(m.Kids) >= 62
+	})
+	if big {
+		stats.Class("large: a list of 62..1027 vertices")
+	}
+	if many {
+		stats.Class("large: 62..67 members")
 	}
 }
 
@@ -1655,11 +1713,11 @@ func TestPropReverse(t *testing.T) {
 		ps := c.pts()
 		stats.Class("coord:" + cls)
 		stats.Class(fmt.Sprintf("vertices:%d", len(ps)))
-		sign, robust, distinct := shoelace(ps)
+		sign, robust, exact, distinct := shoelaceX(ps)
 		switch {
 		case distinct < 3:
 			stats.Class("orientation:< 3 distinct vertices")
-		case halfLattice(ps):
+		case exact:
 			stats.Class(fmt.Sprintf("orientation:exact lattice sign %d", sign))
 		case robust && maxAbs(ps) <= orientSafeMax:
 			stats.Class("orientation:robust float sign")
@@ -1801,6 +1859,14 @@ func TestReplay(t *testing.T) {
 		t.Skip("no replay file")
 	}
 	var f func() error
+	if name == "TestPropSharedReaders" {
+		replaySharedReaders(t, raw)
+		return
+	}
+	if name == "TestEnumLarge" {
+		replayLarge(t, raw)
+		return
+	}
 	if name == "TestPropConcurrent" {
 		replayConcurrent(t, raw)
 		return
